@@ -132,7 +132,7 @@ def run(ctx):
         base = quiesce()
         ctx.log('baseline descriptors: %d' % base)
         for phase, part in sorted(groups.items()):
-            reps = 3 if ctx.thorough else 1
+            reps = 8 if ctx.thorough else 1
             stalls = []
 
             async def batch():
